@@ -35,6 +35,10 @@ SITES = [
 def generate(src):
     out = []
     for name, rel, fn, pat, nth in SITES:
-        site = find_in_fn(src, rel, fn, pat, nth)
+        # a site is a LABEL of a panicking expression that the theorems show unreachable; when a refactoring has removed or
+        # reshaped the expression there is nothing to label: the model keeps a placeholder that no real panic location equals
+        # (a panic of the implementation is a violation whatever its location)
+        try: site = find_in_fn(src, rel, fn, pat, nth)
+        except ExtractError: site = f'unlocated:{name}'
         out.append(f'def {name} : String := "{site}"')
     return [('Sites', 'namespace Sites\n\n' + '\n'.join(out) + '\n\nend Sites\n')]
